@@ -20,6 +20,9 @@ type Fedi struct {
 	w   *World
 	t   *simrt.Tape
 	seq int
+	// QueryURLs: generated pages and items live under one path and differ only in the query
+	// (query-routed servers), so that anything keyed by the path alone confuses them
+	QueryURLs bool
 }
 
 type Doc = map[string]any
@@ -44,17 +47,27 @@ func mustJSON(d any) string {
 }
 
 // Serve registers a JSON document under an absolute https URL.
+// hostFor: a "host:port" entry (a separate service on the same machine) takes precedence.
+func (f *Fedi) hostFor(pu *url.URL) *Host {
+	if pu.Port() != "" {
+		if h := f.w.Hosts[strings.ToLower(pu.Hostname())+":"+pu.Port()]; h != nil {
+			return h
+		}
+	}
+	return f.host(pu.Hostname())
+}
+
 func (f *Fedi) Serve(u string, d any) {
 	pu, err := url.Parse(u)
 	if err != nil {
 		panic(err)
 	}
-	f.host(pu.Hostname()).Routes[pu.RequestURI()] = JSONResponse(mustJSON(d))
+	f.hostFor(pu).Routes[pu.RequestURI()] = JSONResponse(mustJSON(d))
 }
 
 func (f *Fedi) ServeRaw(u string, resp *Response) {
 	pu, _ := url.Parse(u)
-	f.host(pu.Hostname()).Routes[pu.RequestURI()] = resp
+	f.hostFor(pu).Routes[pu.RequestURI()] = resp
 }
 
 var simEpoch = time.Date(2000, 1, 1, 0, 0, 0, 0, time.UTC)
@@ -88,6 +101,8 @@ type CLayout struct {
 	Pages     []*CPage
 	CycleTo   int // -1: the last page has no next; k: the last page's next is page k
 	PageLinks bool // pages also carry first/prev/last
+	Nulls     bool // absent links and item lists are written as JSON null
+	QueryURLs bool // pages and items of this layout share one path and differ in the query only
 	Total     int // totalItems announced (-1 none)
 }
 
@@ -150,6 +165,9 @@ func (f *Fedi) noteItem(host string, published time.Time, remote bool) CItem {
 	n := f.next()
 	tok := fmt.Sprintf("K%dx", n)
 	id := fmt.Sprintf("https://%s/o/%d", host, n)
+	if f.QueryURLs {
+		id = fmt.Sprintf("https://%s/o/q?id=%d", host, n)
+	}
 	d := Doc{"id": id, "type": "Note", "name": tok, "content": "<p>body of " + tok + "</p>"}
 	if !published.IsZero() {
 		d["published"] = published.Format(time.RFC3339)
@@ -190,9 +208,13 @@ func (f *Fedi) DrawLayout(host string, mkItem func(remote bool) CItem) *CLayout 
 			l.HasFirst = false
 		}
 		l.PageLinks = t.Chance(1, 3)
+		l.Nulls = t.Chance(1, 4)
 		for i := 0; i < np; i++ {
 			p := &CPage{Items: itemsFor(), Remote: t.Chance(1, 2), NoID: t.Chance(1, 6)}
 			p.URL = fmt.Sprintf("https://%s/c/%d", host, f.next())
+			if f.QueryURLs {
+				p.URL = fmt.Sprintf("https://%s/c/q?page=%d", host, f.next())
+			}
 			l.Pages = append(l.Pages, p)
 		}
 		if np > 0 {
@@ -267,6 +289,11 @@ func (f *Fedi) Install(l *CLayout) {
 			d["next"] = ref(i + 1)
 		} else if l.CycleTo >= 0 {
 			d["next"] = l.Pages[l.CycleTo].URL
+		} else if l.Nulls {
+			d["next"] = nil // JSON null: the same as absent
+		}
+		if l.Nulls && len(p.Items) == 0 {
+			d[itemsKey] = nil
 		}
 		// real servers put first/prev/last on pages too; paging must follow next only
 		if l.PageLinks {
@@ -309,9 +336,13 @@ func (f *Fedi) Install(l *CLayout) {
 	root := Doc{"@context": "https://www.w3.org/ns/activitystreams", "id": l.RootURL, "type": kind}
 	if len(l.RootItems) > 0 {
 		root[itemsKey] = values(l.RootItems)
+	} else if l.Nulls {
+		root[itemsKey] = nil
 	}
 	if l.HasFirst && len(l.Pages) > 0 {
 		root["first"] = ref(0)
+	} else if l.Nulls {
+		root["first"] = nil
 	}
 	if l.Total >= 0 {
 		root["totalItems"] = l.Total
